@@ -278,7 +278,7 @@ WHOLE_TAGS = {"drift": "Tracks: the drift is the configured one", "void": "Track
               "tracking": "Tracks: not the latest usable report", "phc": "PhcRule: PHC error bound added / report used although it must not be",
               "formula": "BoundOps: not the bound of any report"}
 # which tags are which property's business
-WHOLE_PROPS = {"C07": {"formula", "phc"}, "C08": set(WHOLE_TAGS) | {"unexercised", "daemon-died"}, "C09": {"trust"}, "C12": {"asof-late"},
+WHOLE_PROPS = {"C07": {"formula", "phc"}, "C08": (set(WHOLE_TAGS) - {"asof-late"}) | {"unexercised", "daemon-died"}, "C09": {"trust"}, "C12": {"asof-late"},
                "C13": {"phc", "daemon-died"}, "C19": {"drift"}}
 
 
